@@ -1032,7 +1032,22 @@ def translate(repo):
         term = G.wrap(blk[:-1], blk[-1][2])
         G.defs.append((cname, f"Definition {cname} ({letter} : nat) {' '.join(params)} : res {par(G.coq_type(val))} :=\n  {term}."))
         entries.append((cname, rk, meth, list(pars), list(classes)))
-    text = PRELUDE + "\n" + "\n\n".join(d for _, d in G.defs) + "\n\nEnd BlocksGen.\n"
+    # the default values of the parameters of every translated method (element-level calls rely on them)
+    seen, rows = set(), []
+    for key, val in G.inst.items():
+        cls, meth = key[0], key[1]
+        if (cls, meth) in seen:
+            continue
+        seen.add((cls, meth))
+        fn = G.resolve(cls, meth)[1]
+        a = fn.args
+        names = [x.arg for x in a.args]
+        for nm, dflt in zip(names[len(names) - len(a.defaults):], a.defaults):
+            rows.append((f"{cls}.{meth}.{nm}", ast.unparse(dflt)))
+    rows.sort()
+    deftab = "Definition gen_defaults : list (string * string) :=\n  [" + ";\n   ".join(
+        '("' + k + '", "' + v.replace('"', "'") + '")' for k, v in rows) + "]%string.\n"
+    text = PRELUDE + "\n" + "\n\n".join(d for _, d in G.defs) + "\n\nEnd BlocksGen.\n\n" + deftab
     return text, entries
 
 
